@@ -5,8 +5,8 @@
    Scope: histories start from a compact file (what Tdf.new creates and what BTS software writes:
    blocks back to back in table order, free slots pointing at the end, one block per type); from a
    file that is merely [wf] the code can corrupt data — recorded finding F3b, see C03_wf_not_enough. *)
-From Model Require Import Base Str Fmt Container AFile.
-From Proofs Require Import BaseFacts ContainerFacts ContainerProps.
+From Model Require Import Base Str Fmt Container AFile GFile.
+From Proofs Require Import BaseFacts ContainerFacts ContainerProps GapFacts.
 Open Scope Z_scope.
 
 (* one call: the result is again compact, whatever the outcome; the number of slots never changes *)
@@ -60,6 +60,44 @@ Proof.
   split; [split; [constructor|reflexivity]|constructor].
 Qed.
 Print Assumptions C03_new_compact.
+
+(* ---- beyond packed files.  The property quantifies over "any well-formed file".  [ordered] (GFile.v) is the largest
+   class the code is right about: the blocks lie in table order and all unused slots carry ONE offset behind the last
+   block — but there may be padding in front of every block (a writer that aligns), bytes between the last block and
+   that offset, and bytes behind it.  Every packed file is ordered; what lies outside (unused slots pointing elsewhere,
+   table order differing from file order) is finding F3b. ---- *)
+Theorem C03_compact_is_ordered : forall s, compact s -> ordered s.
+Proof. exact compact_ordered. Qed.
+Print Assumptions C03_compact_is_ordered.
+
+Theorem C03_history_ordered : forall s ops, ordered s -> Forall op_ok ops ->
+  ordered (run_ops s ops) /\ wf (run_ops s ops) /\ mem (run_ops s ops) = tab (run_ops s ops) /\
+  s_n (run_ops s ops) = s_n s.
+Proof.
+  intros s ops Ho Hk. pose proof (run_ordered s ops Ho Hk) as Hr. split; [exact Hr|].
+  destruct (ordered_wf _ Hr) as [Hw Hm]. split; [exact Hw|split; [exact Hm|]].
+  destruct Ho as [a [Hi ->]]. destruct (grun_refines ops a Hi Hk) as [E _]. rewrite E.
+  cbn [s_n gconc]. apply g_run_n.
+Qed.
+Print Assumptions C03_history_ordered.
+
+(* non-vacuity: a 4-slot file of a writer that pads (3 bytes in front of the first block, 2 in front of the second,
+   one more byte behind the data): remove the first block, add a new one — sound, and the second block's bytes moved
+   up by exactly the removed size, padding and all *)
+Example C03_example_holes :
+  let a := mkGF 4 [mkG [0; 0; 0] (mkL 16 0 1 2 3 [65] [9; 9; 9]); mkG [0; 0] (mkL 11 1 1 2 3 [] [7])] [] [255]
+                [mkF 0 5 5 5 []; mkF 0 5 5 5 []] in
+  let b := mkB 5 2 2 (Some [4; 4]) EValue 8 9 in
+  g_inv a /\
+  map (fun e => (e_type e, e_off e, e_size e)) (tab (gconc a)) = [(16, 1219, 3); (11, 1224, 1); (0, 1225, 0); (0, 1225, 0)] /\
+  map (fun e => (e_type e, e_off e, e_size e))
+      (tab (run_ops (gconc a) [ORemove 16 50; OAdd b [66] 60])) = [(11, 1221, 1); (5, 1222, 2); (0, 1224, 0); (0, 1224, 0)] /\
+  data (run_ops (gconc a) [ORemove 16 50; OAdd b [66] 60]) = [0; 0; 0; 0; 0; 7; 4; 4].
+Proof.
+  cbn zeta. split; [|split; [|split]; vm_compute; reflexivity].
+  split; [split; [repeat constructor; discriminate|split; [reflexivity|discriminate]]|].
+  repeat constructor; cbn; intuition discriminate.
+Qed.
 
 (* F3b: soundness alone is not an invariant of the code.  A sound 1-slot file whose unused slot
    carries offset 0 instead of the end of data: add_block trusts that offset. *)
